@@ -31,7 +31,16 @@ Trace == ndJsonDeserialize(IOEnv.TRACE)
 
 HasEOL(s) == Has(s, CR) \/ Has(s, LF)
 NameOK(n) == n # "" /\ ~HasEOL(n)
-ValueOK(v) == ~HasEOL(v)
+(* a field value is acceptable iff EVERY line break in it (CRLF, bare LF, bare CR) is followed by SP / HTAB, i.e. is an
+   obs-fold continuation; anything else ends the field line and starts a new line of the caller's choosing *)
+ValueOK(v) == \A i \in 1..Len(v) :
+  (Ch(v, i) \in {CR, LF} /\ ~(Ch(v, i) = CR /\ i < Len(v) /\ Ch(v, i + 1) = LF)) => (i < Len(v) /\ IsWs(Ch(v, i + 1)))
+(* the parts of a folded value as a recipient that accepts obs-fold sees them *)
+RECURSIVE Parts(_)
+Parts(v) == LET I == {i \in 1..Len(v) : Ch(v, i) \in {CR, LF}} IN
+  IF I = {} THEN <<Trim(v)>>
+  ELSE LET i == Min(I) n == IF Ch(v, i) = CR /\ i < Len(v) /\ Ch(v, i + 1) = LF THEN 2 ELSE 1
+       IN <<Trim(SubSeq(v, 1, i - 1))>> \o Parts(From(v, i + n))
 HdrOK(h) == NameOK(h[1]) /\ ValueOK(h[2])
 ReasonOK(r) == ~HasEOL(r)
 TargetOK(u) == u # "" /\ ~HasEOL(u) /\ ~Has(u, SP) /\ ~Has(u, HT)
@@ -119,7 +128,9 @@ SerializeReq(e, H0) ==
   e.method \o " " \o e.uri \o " HTTP/1.1" \o CRLF \o WriteHdrs(x.h) \o CRLF \o x.b
 
 (* ---- comparison of a parsed message with the expectation *)
-HdrEq(p, x) == Low(p.n) = Low(x[1]) /\ Len(p.v) = 1 /\ (x[2] = ANY \/ p.v[1] = x[2])
+HdrEq(p, x) == Low(p.n) = Low(x[1]) /\ (IF x[2] = ANY THEN Len(p.v) = 1
+                                         ELSE IF HasEOL(x[2]) THEN p.v = Parts(x[2])
+                                         ELSE Len(p.v) = 1 /\ p.v[1] = x[2])
 (* same multiset of fields: a bijection exists; the lists are short, so match greedily in order of the expectation *)
 RECURSIVE HdrsMatch(_, _)
 HdrsMatch(ps, xs) ==
@@ -135,6 +146,13 @@ MsgMatch(p, x) ==
 (* every result the reference allows is exactly the one expected message, then an idle or closed connection *)
 ExactlyOne(R, x) == R # {} /\ \A r \in R : Len(r.out) = 1 /\ MsgMatch(r.out[1], x) /\ r.end \in {"open", "closed"}
 
+(* messages carrying (acceptable) folded values: a recipient may also refuse obs-fold, and bare CR / LF inside a line are
+   left open by the reference - but whatever it derives must still be exactly the caller's message *)
+Foldy(H) == \E i \in 1..Len(H) : HasEOL(H[i][2])
+Matches(r, x) == Len(r.out) = 1 /\ MsgMatch(r.out[1], x) /\ r.end \in {"open", "closed"}
+FoldOK(R, x) == R # {} /\ \A r \in R : Matches(r, x) \/ (Len(r.out) = 0 /\ r.end \in {"rejected", "unspec"})
+Exactly(R, x, H) == IF Foldy(H) THEN FoldOK(R, x) ELSE ExactlyOne(R, x)
+
 Kept(e) == [i \in 1..Len(e.hdrs) |-> e.rc[i] = 0]
 AllGood(e) == [i \in 1..Len(e.hdrs) |-> HdrOK(e.hdrs[i])]
 StartOK(e) == IF e.kind = "resp" THEN ReasonOK(e.reason) ELSE TargetOK(e.uri)
@@ -146,12 +164,12 @@ Unframable(e) == e.kind = "resp" /\ RespUnframable(e)
 (* MODEL: writer o parser = identity on acceptable arguments; an unacceptable start-line argument breaks it *)
 OneMessage(e) ==
   LET H0 == Filter(e.hdrs, AllGood(e)) x == Expected(e, H0) IN
-  (StartOK(e) /\ ~Unframable(e)) => ExactlyOne(Frame(WriteMsg(e, H0), RqOf(e), x.closes), x)
+  (StartOK(e) /\ ~Unframable(e)) => Exactly(Frame(WriteMsg(e, H0), RqOf(e), x.closes), x, H0)
 InjectionIsReal(e) ==
   LET x == Expected(e, e.hdrs) IN
   \* (evhttp_send_error discards the caller's header fields, so they cannot inject there)
   (~StartOK(e) \/ ((e.kind = "req" \/ e.style # "error") /\ \E i \in 1..Len(e.hdrs) : ~HdrOK(e.hdrs[i]))) =>
-     ~ExactlyOne(Frame(WriteMsg(e, e.hdrs), RqOf(e), x.closes), x)
+     ~\E r \in Frame(WriteMsg(e, e.hdrs), RqOf(e), x.closes) : Matches(r, x)   \* no recipient derives the caller's message
 
 (* an injecting default Content-Type written as it is would add a field: dropping it is necessary *)
 DctInjectionIsReal(e) ==
@@ -171,7 +189,7 @@ ImplOK(e) ==
   IN /\ Refusals(e)
      /\ IF ~StartOK(e) THEN e.raw = ""            \* the call must have been refused: nothing written
         ELSE IF Unframable(e) THEN \A r \in R : Len(r.out) = 1 /\ r.out[1].b = x.b /\ r.end \in {"open", "closed"}
-        ELSE ExactlyOne(R, x) /\ (e.kind = "resp" => e.closed = x.closes)
+        ELSE Exactly(R, x, H0) /\ (e.kind = "resp" => e.closed = x.closes)
 
 Mine(e) == e.kind = (IF View = "client" THEN "resp" ELSE "req")
 
